@@ -33,6 +33,10 @@ CLAIMED = {
             'bounded, solver-complete inside the bound: for every data set of n<=5 objects, every user group vector / every random draw sequence, thread counts <=3 and iterations <=2: no model predicts an object it was trained on, train and test parts partition the data, every object is predicted exactly once per iteration and receives its own prediction, residuals use the matching response column',
             'learner internals are other properties; rejection-sampling termination outside the claim; workers synchronous (schedules are C06); reduced generator model (unused id per draw) at the larger sizes',
             'DESIGN.md 5/C05'),
+    'C06': ('CBMC bit-precise concurrency model checking (SAT over all sequentially-consistent interleavings, __CPROVER_ASYNC) of the real srand_/rand_/randInt/randDouble with the generator arithmetic abstracted to uninterpreted functions; CBMC SAT on the real validation drivers with tagging stubs for thread-count independence and the seeding protocol',
+            'bounded, solver-complete inside the bound: for 2 workers x <=3 draws (3 workers x 1 draw) and ALL seeds and interleavings each worker draws its sequential stream; a seeded stream never consults the clock (one known finding excluded); for thread counts 1..3 the validation structure and the set of seeds consumed are those of the sequential run',
+            'sequential consistency; libpthread / OS scheduler / weak memory outside; generator arithmetic uninterpreted in schedule obligations; workers synchronous in the driver obligations',
+            'DESIGN.md 5/C06'),
 }
 NA = {
     'C16': 'behaviour lives inside SQLite and libc decimal formatting (FFI + file I/O); nothing of it is source in /repo that could be executed symbolically - an encoding would verify a hand-written SQL fake, not the code',
